@@ -14,10 +14,31 @@ with tempfile.TemporaryDirectory() as td:
                     "--continue-on-collection-errors", "--junitxml=" + xml], cwd=repo, env=env,
                    stdout=subprocess.DEVNULL, stderr=subprocess.DEVNULL)
     passed = set()
+    if not os.path.exists(xml):
+        print("pytest produced no junit file"); sys.exit(2)
     for tc in ET.parse(xml).getroot().iter("testcase"):
         if not any(c.tag in ("failure", "error", "skipped") for c in tc):
             passed.add("%s::%s" % (tc.get("classname"), tc.get("name")))
 missing = sorted(stable - passed)
+# timing-sensitive tests (llcp timers of 10-20 ms) fail spuriously on a loaded machine: re-run the missing ones alone
+for attempt in range(3):
+    if not missing or len(missing) > 60:
+        break
+    nodes = []
+    for m in missing:
+        cls, name = m.split("::", 1)
+        parts = cls.split(".")
+        nodes.append("/".join(parts[:2]) + ".py::" + "::".join(parts[2:] + [name]))
+    with tempfile.TemporaryDirectory() as td:
+        xml = os.path.join(td, "r.xml")
+        subprocess.run(["/venv/bin/python", "-m", "pytest", "-q", "-p", "no:cacheprovider", "--timeout=300",
+                        "--junitxml=" + xml] + nodes, cwd=repo, env=env, stdout=subprocess.DEVNULL, stderr=subprocess.DEVNULL)
+        if os.path.exists(xml):
+            for tc in ET.parse(xml).getroot().iter("testcase"):
+                if not any(c.tag in ("failure", "error", "skipped") for c in tc):
+                    passed.add("%s::%s" % (tc.get("classname"), tc.get("name")))
+    print("retry %d: %d of %d missing tests passed when re-run alone" % (attempt + 1, len(set(missing) & passed), len(missing)))
+    missing = sorted(stable - passed)
 print("stable_pass=%d passed_now=%d missing=%d" % (len(stable), len(passed), len(missing)))
 for m in missing[:40]:
     print("  MISSING", m)
